@@ -8,11 +8,11 @@ Go code, every map iteration an explicit visit order) and the declarative resolu
 What is proved for ALL programs, ALL visit orders, ALL fuel: the linker binds every type
 reference as the spec designates (`link_binds_spec`) and every root it stores is the
 declarative root (`link_refines_spec_partial`). What the pinned code gets wrong is
-reproduced by the model and proved by evaluation: D10 (`link_order_dependent`), D50
-(`acceptance_order_dependent`), D17 (`enum_item_not_cast`).
+reproduced by the model and proved by evaluation: D10 (`link_order_dependent`) and D50
+(`acceptance_order_dependent`); D17 is repaired (`enum_item_cast` is its regression witness).
 -/
 import ThriftVerif.Compile.LinkProofs
-import ThriftVerif.Compile.Witness
+import ThriftVerif.Compile.RepairedProofs
 
 namespace ThriftVerif.Properties.C07
 open ThriftVerif.Compile
@@ -156,11 +156,12 @@ theorem acceptance_order_dependent :
     (compile 100 [{ types := [nm "T"] }] progD50).isOk = true := by
   constructor <;> rfl
 
-/-- **Negation on the pinned tree (D17): an enum item is not cast to the declared type.**
-`enum Color {RED = 1}  const string s = Color.RED` is accepted and `s` is the enum item. -/
-theorem enum_item_not_cast :
-    (compile 100 [] progD17).toOption.map (fun c => constIsItem c 0 (nm "s") (nm "RED") 1) = some true := by
-  decide +kernel
+/-- **Regression witness (D17, repaired): an enum item is cast to the declared type.**
+`enum Color {RED = 1}  const string s = Color.RED` is rejected (and so is the same item used
+at `i32`): `constantReference.Link` now sends the item through `EnumItemReference.Link`. -/
+theorem enum_item_cast :
+    (∀ fuel, 30 ≤ fuel → compile fuel [] progD17 = .err) ∧ (∀ fuel, (compile fuel [] progD17).isOk = false) :=
+  rejected_of_err err_D17
 
 /-! Non-vacuity: a two-file program with an include-qualified reference, a local dotted name
 shadowing it, and a typedef chain; all orders agree and the roots are the spec's. -/
